@@ -387,7 +387,7 @@ fn exhaustive(ctx: &Ctx) -> Stats {
 
 pub fn run(ctx: &Ctx, started: Instant) -> i32 {
     let mut stats = exhaustive(ctx);
-    let per_shard = ctx.tier.pick(3_000u32, 50_000);
+    let per_shard = ctx.tier.pick(12_000u32, 100_000);
     let rnd = par_shards(WORKERS, |shard| {
         let mut st = Stats::default();
         let role = [Role::V3Server, Role::V5Server, Role::V5Server, Role::V3Server, Role::V3Client, Role::V5Client, Role::V5Server, Role::V3Server][shard % 8];
